@@ -67,6 +67,11 @@ func cellsOfProto(m *pb.MutationProto) []cellT {
 					typ = 0
 				}
 			}
+			// (a nil value leaves the optional value field off the wire where the cellblock form
+			// carries an empty value: equal as byte strings, which is what is compared here.
+			// HBase itself refuses a put / append / increment without the field - an
+			// inconsistency between the two forms that the repository's own tests pin down
+			// (region/multi_test.go expects the absent field), noted in DESIGN.md 8.3)
 			out = append(out, cellT{string(m.Row), string(cv.Family), string(qv.Qualifier), string(qv.Value), ts, typ})
 		}
 	}
@@ -83,7 +88,8 @@ func specCells(kind mutKind, row []byte, vals map[string]map[string][]byte, tsOp
 	var out []cellT
 	del := kind.name == "delete" || kind.name == "delete-one-version"
 	for f, qs := range vals {
-		if del && qs == nil {
+		if del && len(qs) == 0 {
+			// a family listed without qualifiers (nil or empty map) is a delete of that family
 			t := byte(14)
 			if kind.oneVer {
 				t = 10
